@@ -166,7 +166,23 @@ def run(chk: Check):
                 judge_cut(chk, "akai", cut, obs, full["files"], needs, {"id": ci, "case": case, "seed": chk.seed + ci, "kind": "akai"}, records)
         # Roland
         rcases = [c for c in c02.generate(chk, 48, chk.seed + 42, label="Roland images for truncation") if len(c["img"]["samples"]) >= 2 and c["expected"]]
-        for ci, case in enumerate(rcases[: (6 if thorough else 2)]):
+        def backward(case):
+            """clusters of chains that step back to a lower cluster: the part behind the cut precedes, in the chain, a part that is present"""
+            out = set()
+            for e in case["expected"]:
+                for s in e["samples"]:
+                    cl = [x["cluster"] for x in s["extents"]]
+                    for a, b in zip(cl, cl[1:]):
+                        if b < a:
+                            out |= {a, b}
+            return out
+        with_back = [c for c in rcases if backward(c)]
+        plain = [c for c in rcases if not backward(c)]
+        chosen = (with_back[:4] + plain[:2]) if thorough else (with_back[:2] + plain[:1])
+        if not with_back:
+            raise tlc.TlcError("no Roland image with a chain that steps back to a lower cluster was generated")
+        chk.extra["roland_images_with_backward_chains"] = len([c for c in chosen if backward(c)])
+        for ci, case in enumerate(chosen):
             image = rw.build_image(case, chk.seed + ci)
             full = export_observed(image, work, "image.img")
             if full["err"]:
@@ -182,7 +198,8 @@ def run(chk: Check):
                               + [b + d for b in bounds for d in (-1, 0, 1, C // 2)]))
             cuts = [c for c in cuts if c <= len(image)]
             if not thorough:
-                cuts = cuts[:: max(1, len(cuts) // 30)]
+                keep = {base + k * C + d for k in backward(case) for d in (0, 1, C // 2) if base + k * C + d <= len(image)}
+                cuts = sorted(set(cuts[:: max(1, len(cuts) // 30)]) | keep)
             for cut, obs in zip(cuts, observe_cuts(image, cuts, work, "image.img")):
                 judge_cut(chk, "roland", cut, obs, full["files"], needs, {"id": ci, "case": case, "seed": chk.seed + ci, "kind": "roland"}, records)
         # CDDA
